@@ -186,6 +186,7 @@ def action_verdict(d, K, fd, rule):
             return f'raises {o.value.__name__} at {getattr(o.exc, "origin", "?")}'
         return None
     ex = pysym.Executor(max_paths=1500)
+    ex.atoms = {}          # regex matches / word-set membership / str predicates on symbolic strings are opaque facts: both outcomes are explored
     return pysym.verify(K.__module__, None, make_args, post, ex=ex, node=fd)
 
 
